@@ -50,6 +50,15 @@ def run(tier, wd):
     want = (8420 + 12 + 12 ** 2 + 12 ** 3) if q else (20 + 20 ** 2 + 20 ** 3 + 20 ** 4 + 12 + 12 ** 2 + 12 ** 3 + 12 ** 4)
     if len(cases) != want:
         raise core.Broken("Decl.tla emitted %d sequences, expected %d" % (len(cases), want))
+    # a second name universe: names that differ only by case, by an underscore versus a dash, a one-letter upper-case name
+    res2 = core.run_tlc(wd, "MCDecl2", cfg="MCDecl2", timeout=3000)
+    core.tlc_must_finish(res2, "Decl (second name universe)")
+    rep.add_tlc(res2)
+    cases2 = [json.loads(p) for p in sorted(set(res2.printed("DECL")))]
+    cases2 = [c for c in cases2 if c["kind"] == "opts"]
+    if len(cases2) != 30 + 30 ** 2 + 30 ** 3:
+        raise core.Broken("Decl.tla (second name universe) emitted %d option sequences" % len(cases2))
+    cases = cases + cases2
     def concrete(c):
         if c["kind"] == "args":
             return {"kind": "args", "decls": [n.replace("~", "\u0142") for n in c["decls"]]}
